@@ -51,8 +51,7 @@ func (f *fileData) Mode() hackpadfs.FileMode {
 }
 
 func (f *fileData) ModTime() time.Time {
-	var zero time.Time
-	if f.modTimeOverride != zero {
+	if !f.modTimeOverride.IsZero() { // not '!= time.Time{}': a zero time in another zone is still "leave unchanged"
 		return f.modTimeOverride
 	}
 	return f.runOnceFileRecord.ModTime()
